@@ -839,7 +839,7 @@ def install(fs):
     import synced_collections.backends.collection_json as CJ
     import synced_collections.buffers.file_buffered_collection as FB
     fo, fsh = fake_os(fs), fake_shutil(fs)
-    mods = {J: dict(os=fo, shutil=fsh), U: dict(os=fo), P: dict(os=fo, shutil=fsh, open=fs.open, gzip=types.SimpleNamespace(open=fs.gzip_open),
+    mods = {J: dict(os=fo, shutil=fsh, open=fs.open), U: dict(os=fo, open=fs.open), P: dict(os=fo, shutil=fsh, open=fs.open, gzip=types.SimpleNamespace(open=fs.gzip_open),
             time=types.SimpleNamespace(time=lambda: 0.0), ThreadPool=FakePool),
             CJ: dict(os=fo, open=fs.open, uuid=types.SimpleNamespace(uuid4=fs.uuid4)), FB: dict(os=fo)}
     for m, d in mods.items():
